@@ -139,7 +139,7 @@ fn extract_class(
                 },
             ),
         };
-        (key, ((pos, i), stmt.clone()))
+        (key, ((pos, i + 1), stmt.clone()))
     })
     .collect();
 
